@@ -1,114 +1,312 @@
 (* Property C14: property trees survive YAML export and import.
    Theorems only.  Definitions: LV.PropTree.YamlModel (_vnaproperty_yaml_export/_import on an
-   abstract YAML document tree, on top of the byte-level model of C13).  libyaml's emitter
-   followed by its parser is the function [rt] constrained by hypotheses; nothing is an axiom. *)
+   abstract YAML document tree, vnacal_load's parse_document / parse_set, on top of the byte-level
+   model of C13) and LV.PropTree.YamlText (the text class valid_utf8_no_nul; a MODEL scalar
+   emitter / parser with real quoting and escaping).
+
+   libyaml itself is not modelled.  In the theorems named ..._modulo_libyaml, "emit the document
+   with libyaml, then parse it with libyaml" is a function [rt] on document trees constrained by
+   four hypotheses (premises of the theorems, never axioms), which checks/C14.py tests on the
+   documents the real library emits on every run:
+     rt_scalar    a scalar of valid UTF-8 text without NUL keeps its kind and its bytes, and is
+                  read back as PLAIN only if the plain or the "any" style was requested;
+     rt_tilde     the plain scalar ~ (the way a null is written) is read back as the plain scalar ~;
+     rt_mapping, rt_sequence   mappings and sequences keep their kind, length and order.
+   [rt] is a context-free total function: it gives the same answer for a scalar wherever it
+   stands, while libyaml chooses styles by context (flow/block, simple keys up to 1024 bytes,
+   else explicit "? " keys); only the relation above is assumed, for every context at once.
+   The theorems named ..._model_emitter instantiate [rt] with YamlText.rt_quote and have no
+   hypothesis about [rt]; rt_quote is a model emitter/parser, not libyaml. *)
 Require Import List NArith ZArith Bool.
 Import ListNotations.
 Require Import LV.PropTree.PropModel LV.PropTree.DocSpec LV.PropTree.PropProofs LV.PropTree.QuoteProofs
-        LV.PropTree.RebuildProofs LV.PropTree.YamlModel LV.PropTree.YamlProofs.
+        LV.PropTree.RebuildProofs LV.PropTree.YamlModel LV.PropTree.YamlText LV.PropTree.YamlTextProofs
+        LV.PropTree.YamlProofs.
+
+(* ---------------------------------------------------------------- the text class *)
+
+(* valid_utf8_no_nul is not the trivial predicate: it rejects [0;300], an embedded NUL, a lone
+   continuation byte, a truncated sequence, overlong 2-, 3- and 4-byte forms, a surrogate and
+   U+110000; it accepts the empty string, ASCII punctuation with TAB/LF/DEL/SOH, NEL, LS, BOM,
+   U+1F600 and U+10FFFF. *)
+Theorem c14_text_class_not_trivial :
+  (valid_utf8_no_nul [0; 300] = false
+   /\ valid_utf8_no_nul [97; 0; 98] = false
+   /\ valid_utf8_no_nul [97; 128] = false
+   /\ valid_utf8_no_nul [226; 128] = false
+   /\ valid_utf8_no_nul [192; 175] = false
+   /\ valid_utf8_no_nul [224; 159; 191] = false
+   /\ valid_utf8_no_nul [240; 143; 191; 191] = false
+   /\ valid_utf8_no_nul [237; 160; 128] = false
+   /\ valid_utf8_no_nul [244; 144; 128; 128] = false)
+  /\
+  (valid_utf8_no_nul [] = true
+   /\ valid_utf8_no_nul [126; 58; 32; 45; 32; 35; 39; 34; 92; 91; 93; 123; 125; 33; 38; 42; 37; 64; 96; 9; 10; 127; 1] = true
+   /\ valid_utf8_no_nul [194; 133] = true
+   /\ valid_utf8_no_nul [226; 128; 168] = true
+   /\ valid_utf8_no_nul [239; 187; 191] = true
+   /\ valid_utf8_no_nul [240; 159; 152; 128] = true
+   /\ valid_utf8_no_nul [244; 143; 191; 191] = true)%N.
+Proof. exact text_class_not_trivial. Qed.
+Print Assumptions c14_text_class_not_trivial.
+
+(* vnaproperty_quote_key keeps a key inside the text class (it inserts backslashes before ASCII
+   bytes only), so the theorems below put the condition on the RAW keys of the tree. *)
+Theorem c14_quote_key_keeps_text_valid (k : bytes) :
+  valid_utf8_no_nul k = true -> valid_utf8_no_nul (quote_key k) = true.
+Proof. exact (quote_key_valid k). Qed.
+Print Assumptions c14_quote_key_keeps_text_valid.
+
+(* ---------------------------------------------------------------- round trip, libyaml as hypotheses *)
 
 (* For EVERY property tree t whose map keys are non-empty and distinct and whose lists are shorter
-   than 2^31 - 1 (wf: what the API can build), and for every behaviour [rt] of "emit, then parse"
-   that (1) keeps node kinds, order and scalar bytes of the admissible texts, (2) reads a scalar
-   back as plain only if it was emitted plain or with the "any" style and (3) reads a plain-emitted
-   scalar back as plain: importing the exported document into an empty root succeeds and yields
-   the same document (kinds, keys in order, list order, nulls, every scalar byte). *)
-Theorem c14_yaml_roundtrip
-        (rt : ynode -> ynode) (text_ok : bytes -> Prop)
-        (rt_scalar : forall v st, text_ok v ->
+   than 2^31 - 1 (wf: what the API can build) and whose scalars and raw keys are valid UTF-8
+   without NUL (tree_text_ok, executable), ASSUMING that libyaml's emit+parse preserves kinds,
+   order and the scalar bytes of such text and the plain / non-plain style relation (the four
+   hypotheses, tested on every run): importing the exported document into an empty root succeeds
+   and yields the same document (kinds, keys in order, list order, nulls, every scalar byte). *)
+Theorem c14_yaml_roundtrip_modulo_libyaml
+        (rt : ynode -> ynode)
+        (rt_scalar : forall v st, valid_utf8_no_nul v = true ->
             exists st', rt (YScalar v st) = YScalar v st'
-                        /\ (st = YPlain -> st' = YPlain)
                         /\ (st' = YPlain -> st = YPlain \/ st = YAny))
+        (rt_tilde : rt (YScalar [126%N] YPlain) = YScalar [126%N] YPlain)
         (rt_mapping : forall kv, rt (YMapping kv) = YMapping (map (fun p => (rt (fst p), rt (snd p))) kv))
         (rt_sequence : forall l, rt (YSequence l) = YSequence (map rt l))
-        (tilde_ok : text_ok [126%N])
         (t : node) :
-  wf t -> tree_ok text_ok t ->
+  wf t -> tree_text_ok t = true ->
   abs (fst (yaml_import (rt (yaml_export t)) NNull)) = abs t
   /\ snd (yaml_import (rt (yaml_export t)) NNull) = true.
-Proof. exact (yaml_roundtrip rt text_ok rt_scalar rt_mapping rt_sequence tilde_ok t). Qed.
-Print Assumptions c14_yaml_roundtrip.
-
-(* The hypotheses are satisfiable (by the round trip in which every scalar that may come back
-   plain does), for all texts: *)
-Theorem c14_yaml_roundtrip_satisfiable (t : node) :
-  wf t -> abs (fst (yaml_import (yaml_rt_ideal (yaml_export t)) NNull)) = abs t
-          /\ snd (yaml_import (yaml_rt_ideal (yaml_export t)) NNull) = true.
-Proof. exact (yaml_roundtrip_ideal t). Qed.
-Print Assumptions c14_yaml_roundtrip_satisfiable.
-
-(* ... and a concrete tree with null look-alikes ("~", "null"), a key that needs quoting ("a.b "),
-   a key that is a single space, a multi-line scalar, a null and an empty map inside a list. *)
-Theorem c14_example_roundtrip :
-  fst (yaml_import (yaml_rt_ideal (yaml_export example_tree)) NNull) = example_tree.
-Proof. exact example_tree_roundtrip. Qed.
-Print Assumptions c14_example_roundtrip.
-
-(* Null look-alikes are never exported in a style that can be read back as null, and null is. *)
-Theorem c14_null_lookalike_quoted (v : bytes) :
-  is_yaml_null v = true -> yaml_export (NScalar v) = YScalar v YDouble.
-Proof. exact (null_lookalike_quoted v). Qed.
-Print Assumptions c14_null_lookalike_quoted.
-
-
-(* ---------------------------------------------------------------- properties embedded in a calibration file.
-   save_mapping pre post t: a mapping written by vnacal_save (the top-level one, or a calibration's)
-   with arbitrary other entries before and after the pair "properties" -> export t, whose keys are
-   admissible texts different from "properties".  Under the same hypotheses about libyaml, what
-   vnacal_load's parse_document (global root) and parse_calibration (per-calibration root) import
-   is t - for every tree, a null root (written as ~) and a scalar root included. *)
-Theorem c14_calfile_global_properties_rt
-        (rt : ynode -> ynode) (text_ok : bytes -> Prop)
-        (rt_scalar : forall v st, text_ok v ->
-            exists st', rt (YScalar v st) = YScalar v st'
-                        /\ (st = YPlain -> st' = YPlain)
-                        /\ (st' = YPlain -> st = YPlain \/ st = YAny))
-        (rt_mapping : forall kv, rt (YMapping kv) = YMapping (map (fun p => (rt (fst p), rt (snd p))) kv))
-        (rt_sequence : forall l, rt (YSequence l) = YSequence (map rt l))
-        (tilde_ok : text_ok [126%N]) (properties_ok : text_ok key_properties)
-        (pre post : list (bytes * ynode)) (t : node) :
-  other_keys text_ok pre -> other_keys text_ok post -> wf t -> tree_ok text_ok t ->
-  good (load_global_properties (rt (save_mapping pre post t)) NNull) t.
-Proof.
-  exact (calfile_global_properties_rt rt text_ok rt_scalar rt_mapping rt_sequence tilde_ok properties_ok pre post t).
-Qed.
-Print Assumptions c14_calfile_global_properties_rt.
-
-Theorem c14_calfile_calibration_properties_rt
-        (rt : ynode -> ynode) (text_ok : bytes -> Prop)
-        (rt_scalar : forall v st, text_ok v ->
-            exists st', rt (YScalar v st) = YScalar v st'
-                        /\ (st = YPlain -> st' = YPlain)
-                        /\ (st' = YPlain -> st = YPlain \/ st = YAny))
-        (rt_mapping : forall kv, rt (YMapping kv) = YMapping (map (fun p => (rt (fst p), rt (snd p))) kv))
-        (rt_sequence : forall l, rt (YSequence l) = YSequence (map rt l))
-        (tilde_ok : text_ok [126%N]) (properties_ok : text_ok key_properties)
-        (pre post : list (bytes * ynode)) (t : node) :
-  other_keys text_ok pre -> other_keys text_ok post -> wf t -> tree_ok text_ok t ->
-  good (load_calibration_properties (rt (save_mapping pre post t))) t.
-Proof.
-  exact (calfile_calibration_properties_rt rt text_ok rt_scalar rt_mapping rt_sequence tilde_ok properties_ok pre post t).
-Qed.
-Print Assumptions c14_calfile_calibration_properties_rt.
-
-Theorem c14_calfile_properties_rt_satisfiable (pre post : list (bytes * ynode)) (t : node) :
-  other_keys (fun _ => True) pre -> other_keys (fun _ => True) post -> wf t ->
-  good (load_global_properties (yaml_rt_ideal (save_mapping pre post t)) NNull) t /\
-  good (load_calibration_properties (yaml_rt_ideal (save_mapping pre post t))) t.
-Proof. exact (calfile_properties_rt_ideal pre post t). Qed.
-Print Assumptions c14_calfile_properties_rt_satisfiable.
+Proof. exact (yaml_roundtrip rt rt_scalar rt_tilde rt_mapping rt_sequence t). Qed.
+Print Assumptions c14_yaml_roundtrip_modulo_libyaml.
 
 (* vnaproperty_import_yaml_from_string / _from_file replace whatever the root held (DP2 fixed):
-   the round trip holds for every previous content of the root *)
-Theorem c14_import_replaces_content
-        (rt : ynode -> ynode) (text_ok : bytes -> Prop)
-        (rt_scalar : forall v st, text_ok v ->
+   the same round trip for every previous content of the root, under the same hypotheses. *)
+Theorem c14_import_replaces_content_modulo_libyaml
+        (rt : ynode -> ynode)
+        (rt_scalar : forall v st, valid_utf8_no_nul v = true ->
             exists st', rt (YScalar v st) = YScalar v st'
-                        /\ (st = YPlain -> st' = YPlain)
                         /\ (st' = YPlain -> st = YPlain \/ st = YAny))
+        (rt_tilde : rt (YScalar [126%N] YPlain) = YScalar [126%N] YPlain)
         (rt_mapping : forall kv, rt (YMapping kv) = YMapping (map (fun p => (rt (fst p), rt (snd p))) kv))
         (rt_sequence : forall l, rt (YSequence l) = YSequence (map rt l))
-        (tilde_ok : text_ok [126%N]) (root t : node) :
-  wf t -> tree_ok text_ok t -> good (import_document (rt (yaml_export t)) root) t.
-Proof. exact (import_document_replaces rt text_ok rt_scalar rt_mapping rt_sequence tilde_ok root t). Qed.
-Print Assumptions c14_import_replaces_content.
+        (root t : node) :
+  wf t -> tree_text_ok t = true -> good (import_document (rt (yaml_export t)) root) t.
+Proof. exact (import_document_replaces rt rt_scalar rt_tilde rt_mapping rt_sequence root t). Qed.
+Print Assumptions c14_import_replaces_content_modulo_libyaml.
+
+(* ---------------------------------------------------------------- a whole calibration file.
+   save_file g cals: the document vnacal_save writes (properties: export g; calibrations: one
+   mapping per calibration: name: <distinct, valid text>, arbitrary entries before and after
+   properties: export t whose keys are valid text different from "properties" and "name").  load_file v pre_ok post_ok y: vnacal_load
+   with first-line classification v; pre_ok / post_ok stand for every step of parse_set that is
+   not the properties import or the name (field parsing, required fields, dimensions, allocation;
+   parse_data) and may depend on the calibrations held so far and on the whole mapping; a
+   calibration is stored under its name and replaces an earlier one of the same name.
+   load_file returns None as soon as ANY step fails (vnacal_load frees everything, returns NULL).
+
+   (a) If the version line is accepted and all non-property steps succeed, the load succeeds
+       and returns the saved global properties and, in order, each calibration's saved
+       properties (null roots, written as ~, and scalar roots included). *)
+Theorem c14_calfile_load_rt_modulo_libyaml
+        (rt : ynode -> ynode)
+        (rt_scalar : forall v st, valid_utf8_no_nul v = true ->
+            exists st', rt (YScalar v st) = YScalar v st'
+                        /\ (st' = YPlain -> st = YPlain \/ st = YAny))
+        (rt_tilde : rt (YScalar [126%N] YPlain) = YScalar [126%N] YPlain)
+        (rt_mapping : forall kv, rt (YMapping kv) = YMapping (map (fun p => (rt (fst p), rt (snd p))) kv))
+        (rt_sequence : forall l, rt (YSequence l) = YSequence (map rt l))
+        (pre_ok post_ok : others) (v : vline) (g : node) (cals : list calrec) :
+  v <> VBad -> wf g -> tree_text_ok g = true -> Forall calrec_ok cals -> NoDup (map c_name cals) ->
+  others_all_ok pre_ok post_ok [] (map (fun c => rt (save_cal c)) cals) = true ->
+  exists g' cs', load_file v pre_ok post_ok (rt (save_file g cals)) = Some (g', cs')
+                 /\ abs g' = abs g /\ map abs cs' = map (fun c => abs (c_props c)) cals.
+Proof.
+  exact (calfile_load_rt rt rt_scalar rt_tilde rt_mapping rt_sequence pre_ok post_ok v g cals).
+Qed.
+Print Assumptions c14_calfile_load_rt_modulo_libyaml.
+
+(* (b) If the version line is refused or any non-property step of any calibration fails, the
+       whole load fails - so (a) and (b) together say that a saved file is loaded completely and
+       correctly or not at all; nothing is claimed about a partially read file because
+       vnacal_load never returns one. *)
+Theorem c14_calfile_load_all_or_nothing_modulo_libyaml
+        (rt : ynode -> ynode)
+        (rt_scalar : forall v st, valid_utf8_no_nul v = true ->
+            exists st', rt (YScalar v st) = YScalar v st'
+                        /\ (st' = YPlain -> st = YPlain \/ st = YAny))
+        (rt_tilde : rt (YScalar [126%N] YPlain) = YScalar [126%N] YPlain)
+        (rt_mapping : forall kv, rt (YMapping kv) = YMapping (map (fun p => (rt (fst p), rt (snd p))) kv))
+        (rt_sequence : forall l, rt (YSequence l) = YSequence (map rt l))
+        (pre_ok post_ok : others) (v : vline) (g : node) (cals : list calrec) :
+  wf g -> tree_text_ok g = true -> Forall calrec_ok cals -> NoDup (map c_name cals) ->
+  v = VBad \/ others_all_ok pre_ok post_ok [] (map (fun c => rt (save_cal c)) cals) = false ->
+  load_file v pre_ok post_ok (rt (save_file g cals)) = None.
+Proof.
+  exact (calfile_load_all_or_nothing rt rt_scalar rt_tilde rt_mapping rt_sequence pre_ok post_ok v g cals).
+Qed.
+Print Assumptions c14_calfile_load_all_or_nothing_modulo_libyaml.
+
+(* ---------------------------------------------------------------- the hypotheses are met by an emitter that really quotes.
+   MODEL emitter/parser (YamlText.v; not libyaml): emit_scalar writes a scalar plain when a plain
+   or "any" style is requested and the text is plain_safe, otherwise in double quotes with the
+   escapes \\ \(dquote) \n \t \xHH \L \P \u HHHH; parse_scalar accepts a complete double-quoted token
+   (and decodes more escapes than the emitter writes) or plain_safe text and refuses anything else.
+   For EVERY byte string and style the parser reads back exactly the emitted bytes, plain iff
+   the emitter wrote them plain. *)
+Theorem c14_model_emitter_parse_emit (v : bytes) (st : ystyle) :
+  parse_scalar (emit_scalar v st) = Some (v, if wants_plain st && plain_safe v then YPlain else YDouble).
+Proof. exact (parse_emit_scalar v st). Qed.
+Print Assumptions c14_model_emitter_parse_emit.
+
+(* ... and it does quote and escape: emitted text of a valid string with double quote, backslash,
+   LF, TAB, SOH, NEL, LS, BOM and a 2-byte character; of "a: b", "- a", "a #b", "a ", ""; text
+   left plain; the parser reading \N, \u 00e9, \x41; the parser refusing an unterminated token,
+   text after the closing quote, an unknown escape and unsafe plain text. *)
+Theorem c14_model_emitter_quotes_and_escapes :
+  (valid_utf8_no_nul hostile_text = true
+  /\ emit_scalar hostile_text YAny =
+     [34; 97; 92; 34; 92; 92; 98; 92; 110; 92; 116; 92; 120; 48; 49; 92; 120; 56; 53; 92; 76;
+      92; 117; 70; 69; 70; 70; 195; 169; 34]
+  /\ emit_scalar [97; 58; 32; 98] YAny = [34; 97; 58; 32; 98; 34]
+  /\ emit_scalar [45; 32; 97] YAny = [34; 45; 32; 97; 34]
+  /\ emit_scalar [97; 32; 35; 98] YAny = [34; 97; 32; 35; 98; 34]
+  /\ emit_scalar [97; 32] YAny = [34; 97; 32; 34]
+  /\ emit_scalar [] YAny = [34; 34]
+  /\ emit_scalar [97; 32; 98; 39; 99] YAny = [97; 32; 98; 39; 99]
+  /\ emit_scalar [126] YPlain = [126]
+  /\ parse_scalar [34; 92; 78; 92; 117; 48; 48; 101; 57; 92; 120; 52; 49; 34] = Some ([194; 133; 195; 169; 65], YDouble)
+  /\ parse_scalar [34; 97] = None /\ parse_scalar [34; 97; 34; 98] = None
+  /\ parse_scalar [34; 92; 113; 34] = None /\ parse_scalar [97; 58; 32; 98] = None)%N.
+Proof. exact model_emitter_quotes_and_escapes. Qed.
+Print Assumptions c14_model_emitter_quotes_and_escapes.
+
+(* For EVERY wf tree of valid UTF-8 text: export, write every scalar and key as YAML text with
+   the model emitter (quoting / escaping where needed), parse each back with the model parser,
+   import: the same tree.  No hypothesis about [rt]: all four are proved for rt_quote. *)
+Theorem c14_yaml_roundtrip_model_emitter (t : node) :
+  wf t -> tree_text_ok t = true ->
+  abs (fst (yaml_import (rt_quote (yaml_export t)) NNull)) = abs t
+  /\ snd (yaml_import (rt_quote (yaml_export t)) NNull) = true.
+Proof. exact (yaml_roundtrip_model_emitter t). Qed.
+Print Assumptions c14_yaml_roundtrip_model_emitter.
+
+Theorem c14_import_replaces_content_model_emitter (root t : node) :
+  wf t -> tree_text_ok t = true -> good (import_document (rt_quote (yaml_export t)) root) t.
+Proof. exact (import_document_replaces_model_emitter root t). Qed.
+Print Assumptions c14_import_replaces_content_model_emitter.
+
+Theorem c14_calfile_load_rt_model_emitter
+        (pre_ok post_ok : others) (v : vline) (g : node) (cals : list calrec) :
+  v <> VBad -> wf g -> tree_text_ok g = true -> Forall calrec_ok cals -> NoDup (map c_name cals) ->
+  others_all_ok pre_ok post_ok [] (map (fun c => rt_quote (save_cal c)) cals) = true ->
+  exists g' cs', load_file v pre_ok post_ok (rt_quote (save_file g cals)) = Some (g', cs')
+                 /\ abs g' = abs g /\ map abs cs' = map (fun c => abs (c_props c)) cals.
+Proof. exact (calfile_load_rt_model_emitter pre_ok post_ok v g cals). Qed.
+Print Assumptions c14_calfile_load_rt_model_emitter.
+
+(* A concrete tree (all hypotheses instantiated): a null, the look-alikes ~ and null, a key that
+   needs descriptor quoting, a one-space key, a multi-line scalar, keys and scalars with double
+   quote, backslash, TAB, ": ", "- ", " #", leading / trailing spaces, a control character, NEL,
+   LS, BOM, 2-, 3-, 4-byte UTF-8, an empty string, an empty map in a list - is valid text and
+   goes through the model emitter unchanged (Leibniz equality, allocation included) ... *)
+Theorem c14_hostile_tree_roundtrip_model_emitter :
+  tree_text_ok hostile_tree = true
+  /\ fst (yaml_import (rt_quote (yaml_export hostile_tree)) NNull) = hostile_tree
+  /\ snd (yaml_import (rt_quote (yaml_export hostile_tree)) NNull) = true.
+Proof. exact (conj hostile_tree_text_ok hostile_tree_roundtrip_model_emitter). Qed.
+Print Assumptions c14_hostile_tree_roundtrip_model_emitter.
+
+(* ... and on the way several of its scalars and keys are double-quoted and escaped (their
+   emitted text differs from their bytes) while "plain text" is written as it is. *)
+Theorem c14_hostile_tree_emitted_texts :
+  (map (fun v => emit_scalar v (scalar_style v)) [[126]; [108; 49; 10; 108; 50]; [32; 97; 32; 35; 98; 32]; []]
+  = [[34; 126; 34]; [34; 108; 49; 92; 110; 108; 50; 34]; [34; 32; 97; 32; 35; 98; 32; 34]; [34; 34]]
+  /\ emit_scalar (quote_key [107; 58; 32; 34]) YAny = [34; 107; 92; 92; 58; 32; 92; 92; 92; 34; 34]
+  /\ emit_scalar (quote_key [194; 133; 226; 128; 168]) YAny = [34; 92; 120; 56; 53; 92; 76; 34]
+  /\ emit_scalar [112; 108; 97; 105; 110; 32; 116; 101; 120; 116] YAny = [112; 108; 97; 105; 110; 32; 116; 101; 120; 116])%N.
+Proof. exact hostile_tree_emitted_texts. Qed.
+Print Assumptions c14_hostile_tree_emitted_texts.
+
+(* The calibration-file statements on a concrete file (three calibrations whose properties are
+   the hostile tree, a null and the scalar "null"): the premises of (a) hold with pre_ok / post_ok
+   that look at their arguments; the file loads completely; a failure after the third
+   calibration's properties were imported, or a refused version line, gives None; so does a
+   hand-made file whose properties contain a key that is not a descriptor. *)
+Theorem c14_calfile_examples :
+  Forall calrec_ok ex_cals /\ NoDup (map c_name ex_cals)
+  /\ others_all_ok (fun done kv => Nat.eqb (length kv) 4) (fun done _ => Nat.ltb (length done) 3) []
+                   (map (fun c => rt_quote (save_cal c)) ex_cals) = true
+  /\ load_file VMajor1 (fun _ _ => true) (fun _ _ => true) (rt_quote (save_file hostile_tree ex_cals))
+     = Some (hostile_tree, [hostile_tree; NNull; NScalar [110; 117; 108; 108]%N])
+  /\ load_file VMajor1 (fun _ _ => true) (fun done _ => Nat.ltb (length done) 2) (rt_quote (save_file hostile_tree ex_cals)) = None
+  /\ load_file VBad (fun _ _ => true) (fun _ _ => true) (rt_quote (save_file hostile_tree ex_cals)) = None
+  /\ load_file VMajor1 (fun _ _ => true) (fun _ _ => true)
+       (YMapping [(YScalar key_properties YPlain, YMapping [(YScalar [91]%N YPlain, YScalar [49]%N YPlain)]);
+                  (YScalar key_calibrations YPlain, YSequence [])]) = None.
+Proof. exact calfile_examples. Qed.
+Print Assumptions c14_calfile_examples.
+
+(* Hand-made documents (not ones vnacal_save writes), following parse_document / parse_set: an
+   unknown top-level key is ignored, two top-level "properties" entries merge, in a calibration
+   the last "properties" entry wins; "sets" lists the calibrations only in a version-0 file; a
+   calibration without a name or with a non-scalar name fails the load; a calibration with the
+   name of an earlier one replaces it in its slot. *)
+Theorem c14_calfile_handmade_documents :
+  load_file VMajor1 (fun _ _ => true) (fun _ _ => true)
+    (YMapping [(YScalar key_properties YPlain, YMapping [(YScalar [97]%N YPlain, YScalar [49]%N YPlain)]);
+               (YScalar [120]%N YPlain, YSequence [YScalar [63]%N YPlain]);
+               (YScalar key_properties YPlain, YMapping [(YScalar [98]%N YPlain, YScalar [50]%N YPlain)]);
+               (YScalar key_calibrations YPlain,
+                YSequence [YMapping [(YScalar key_name YPlain, YScalar [99]%N YPlain);
+                                     (YScalar key_properties YPlain, YScalar [49]%N YPlain);
+                                     (YScalar key_properties YPlain, YScalar [50]%N YPlain)]])])
+  = Some (NMap [([97]%N, NScalar [49]%N); ([98]%N, NScalar [50]%N)], [NScalar [50]%N])
+  /\
+  (load_file VMajor0 (fun _ _ => true) (fun _ _ => true)
+     (YMapping [(YScalar key_sets YPlain, YSequence [YMapping [(YScalar key_name YPlain, YScalar [99]%N YPlain)]])]),
+   load_file VMajor1 (fun _ _ => true) (fun _ _ => true)
+     (YMapping [(YScalar key_sets YPlain, YSequence [YMapping [(YScalar key_name YPlain, YScalar [99]%N YPlain)]])]))
+  = (Some (NNull, [NNull]), Some (NNull, []))
+  /\
+  (load_file VMajor1 (fun _ _ => true) (fun _ _ => true)
+     (YMapping [(YScalar key_calibrations YPlain, YSequence [YMapping []])]),
+   load_file VMajor1 (fun _ _ => true) (fun _ _ => true)
+     (YMapping [(YScalar key_calibrations YPlain,
+                 YSequence [YMapping [(YScalar key_name YPlain, YSequence []); (YScalar key_name YPlain, YScalar [99]%N YPlain)]])]),
+   load_file VMajor1 (fun _ _ => true) (fun _ _ => true)
+     (YMapping [(YScalar key_calibrations YPlain,
+                 YSequence [YMapping [(YScalar key_name YPlain, YScalar [99]%N YPlain); (YScalar key_properties YPlain, YScalar [49]%N YPlain)];
+                            YMapping [(YScalar key_name YPlain, YScalar [100]%N YPlain); (YScalar key_properties YPlain, YScalar [50]%N YPlain)];
+                            YMapping [(YScalar key_name YPlain, YScalar [99]%N YPlain); (YScalar key_properties YPlain, YScalar [51]%N YPlain)]])]))
+  = (None, None, Some (NNull, [NScalar [51]%N; NScalar [50]%N])).
+Proof. exact (conj calfile_example_merge_and_last (conj calfile_example_sets calfile_example_names)). Qed.
+Print Assumptions c14_calfile_handmade_documents.
+
+(* The weakest witness: the identity on bytes (no quoting at all) also meets the hypotheses.
+   Kept because the extracted driver predicts the library's result through it. *)
+Theorem c14_yaml_roundtrip_identity_witness (t : node) :
+  wf t -> tree_text_ok t = true ->
+  abs (fst (yaml_import (yaml_rt_ideal (yaml_export t)) NNull)) = abs t
+  /\ snd (yaml_import (yaml_rt_ideal (yaml_export t)) NNull) = true.
+Proof. exact (yaml_roundtrip_identity_witness t). Qed.
+Print Assumptions c14_yaml_roundtrip_identity_witness.
+
+(* ---------------------------------------------------------------- null look-alikes *)
+
+(* For "~", "null", "Null", "NULL" _vnaproperty_yaml_export REQUESTS the double-quoted style.
+   (That libyaml honours the request - never reads such a scalar back plain - is the hypothesis
+   rt_scalar, tested on every run; it is not proved here.) *)
+Theorem c14_null_lookalike_double_quoted_style_requested (v : bytes) :
+  is_yaml_null v = true -> yaml_export (NScalar v) = YScalar v YDouble.
+Proof. exact (null_lookalike_quoted v). Qed.
+Print Assumptions c14_null_lookalike_double_quoted_style_requested.
+
+(* With the model emitter the request is honoured: the text of a null look-alike is written in
+   double quotes and the model parser reads it back non-plain with the same bytes. *)
+Theorem c14_null_lookalike_model_emitter (v : bytes) :
+  is_yaml_null v = true ->
+  emit_scalar v (scalar_style v) = (34 :: escape v ++ [34])%N
+  /\ parse_scalar (emit_scalar v (scalar_style v)) = Some (v, YDouble).
+Proof. exact (null_lookalike_model_emitter v). Qed.
+Print Assumptions c14_null_lookalike_model_emitter.
